@@ -958,6 +958,14 @@ func (c *Ctx) tileEpilogue(p *Parser, fi *FuncInfo, cursor ssa.Value) {
 						}
 					}
 				}
+				// len(blk.Sequences) != 0 (a length is never negative)
+				if f.Op == NE && len(f.L.t) == 1 && f.L.c == 0 {
+					for a := range f.L.t {
+						if strings.HasPrefix(a, "len("+blockParamName(fi.fn)+".Sequences") {
+							hasSeq = true
+						}
+					}
+				}
 			}
 			nCut++
 			c.check(hasFlag && hasSeq, key+":cut", st.Pos(),
@@ -1159,18 +1167,61 @@ func ruleEmpty(c *Ctx) {
 			continue
 		}
 		ln := fi.lin(n0)
-		sides := map[string]*ssa.BasicBlock{"nil": sh.NilBlk, "non-nil": sh.NonNil}
+		// the blocks reachable with a non-nil block before both truncations have happened
+		unS, _ := c.untruncatedReach(fi, sh.Blk, "Sequences")
+		unL, _ := c.untruncatedReach(fi, sh.Blk, "Literals")
+		// a return belongs to a side unless the opposite answer of the blk == nil test dominates it
+		onSide := func(b *ssa.BasicBlock, side string) bool {
+			for _, cd := range fi.condsAt(b) {
+				switch isNilCmp(cd, sh.Blk) {
+				case -1:
+					if side == "non-nil" {
+						return false
+					}
+				case +1:
+					if side == "nil" {
+						return false
+					}
+				}
+			}
+			return true
+		}
+		// n₀ == 0 / n₀ ≠ 0 known at b (dominating, or on every way into b)
+		known := func(b *ssa.BasicBlock, zero bool) bool {
+			test := func(conds []Cond) bool {
+				for _, f := range fi.factsOf(conds) {
+					if zero && f.Op == EQ && (f.L.eq(ln) || f.L.eq(ln.scale(-1))) {
+						return true
+					}
+					if !zero && f.Op == NE && (f.L.eq(ln) || f.L.eq(ln.scale(-1))) {
+						return true
+					}
+					if !zero && f.Op == LE && f.L.eq(ln.scale(-1).addc(1)) {
+						return true
+					}
+				}
+				return false
+			}
+			if test(fi.condsAt(b)) {
+				return true
+			}
+			if len(b.Preds) > 1 {
+				for _, w := range fi.waysInto(b) {
+					if !test(w) {
+						return false
+					}
+				}
+				return true
+			}
+			return false
+		}
 		for _, side := range []string{"nil", "non-nil"} {
-			start := sides[side]
 			key := fmt.Sprintf("%s:empty-%s", fnName(fn), side)
-			// every ErrEmptyBuffer return on this side: n=0 and dominated by n0==0
+			// every ErrEmptyBuffer return that can be taken on this side: n=0 and under n0==0
 			var emptyRets []*ssa.Return
 			for _, b := range fn.Blocks {
-				if !(b == start || start.Dominates(b)) {
-					continue
-				}
 				r, ok := b.Instrs[len(b.Instrs)-1].(*ssa.Return)
-				if !ok || len(r.Results) != 2 {
+				if !ok || len(r.Results) != 2 || !onSide(b, side) {
 					continue
 				}
 				if isLoadOfGlobal(r.Results[1], "ErrEmptyBuffer") {
@@ -1178,21 +1229,16 @@ func ruleEmpty(c *Ctx) {
 				}
 			}
 			if len(emptyRets) == 0 {
-				c.fail(key, start.Instrs[0].Pos(), "no return of ErrEmptyBuffer on the %s-block side", side)
+				c.fail(key, fn.Pos(), "no return of ErrEmptyBuffer on the %s-block side", side)
 				continue
 			}
 			for _, r := range emptyRets {
 				okZero := isConstZero(r.Results[0])
-				eq0 := false
-				for _, f := range fi.factsAt(r.Block()) {
-					if f.Op == EQ && (f.L.eq(ln) || f.L.eq(ln.scale(-1))) {
-						eq0 = true
-					}
-				}
-				// converse: the other successor of the deciding branch must not reach another return with n0==0
+				eq0 := known(r.Block(), true)
 				stores := true
 				if side == "non-nil" {
-					stores = c.truncatedBefore(fi, sh.Blk, r.Block())
+					// with a non-nil block the return is not reached before both truncations
+					stores = !unS[r.Block()] && !unL[r.Block()]
 				}
 				switch {
 				case !okZero:
@@ -1205,25 +1251,13 @@ func ruleEmpty(c *Ctx) {
 					c.ok(key, r.Pos(), "(0, ErrEmptyBuffer) exactly under n₀ == 0")
 				}
 			}
-			// every other return on this side must be dominated by n0 != 0
+			// every other return on this side must be under n0 != 0
 			for _, b := range fn.Blocks {
-				if !(b == start || start.Dominates(b)) {
-					continue
-				}
 				r, ok := b.Instrs[len(b.Instrs)-1].(*ssa.Return)
-				if !ok || len(r.Results) != 2 || isLoadOfGlobal(r.Results[1], "ErrEmptyBuffer") {
+				if !ok || len(r.Results) != 2 || isLoadOfGlobal(r.Results[1], "ErrEmptyBuffer") || !onSide(b, side) {
 					continue
 				}
-				ne := false
-				for _, f := range fi.factsAt(b) {
-					if f.Op == NE && (f.L.eq(ln) || f.L.eq(ln.scale(-1))) {
-						ne = true
-					}
-					if f.Op == LE && f.L.eq(ln.scale(-1).addc(1)) {
-						ne = true
-					}
-				}
-				if !ne {
+				if !known(b, false) {
 					c.fail(fmt.Sprintf("%s:nonempty-%s", fnName(fn), side), r.Pos(), "a return other than ErrEmptyBuffer is reachable with n₀ == 0 on the %s-block side", side)
 				}
 			}
@@ -1333,7 +1367,31 @@ func ruleNilNoEmit(c *Ctx) {
 			c.fail(key, fn.Pos(), "no blk == nil branch: a nil block would be dereferenced")
 			continue
 		}
-		// the branch must come before any use of blk
+		// every use of blk is under blk != nil: a dominating test (any of them — the function may test
+		// more than once), or such a test on every way into the block of the use
+		fi := c.info(fn)
+		nonNilAt := func(b *ssa.BasicBlock) bool {
+			has := func(conds []Cond) bool {
+				for _, cd := range conds {
+					if isNilCmp(cd, sh.Blk) == +1 {
+						return true
+					}
+				}
+				return false
+			}
+			if has(fi.condsAt(b)) {
+				return true
+			}
+			if len(b.Preds) > 1 {
+				for _, w := range fi.waysInto(b) {
+					if !has(w) {
+						return false
+					}
+				}
+				return true
+			}
+			return false
+		}
 		bad := false
 		for _, ref := range *sh.Blk.Referrers() {
 			in := ref
@@ -1341,11 +1399,18 @@ func ruleNilNoEmit(c *Ctx) {
 				continue
 			}
 			b := in.Block()
-			if b == sh.NilBlk || sh.NilBlk.Dominates(b) {
-				c.fail(key, in.Pos(), "blk is used on the blk == nil edge")
-				bad = true
-			} else if !(b == sh.NonNil || sh.NonNil.Dominates(b)) {
-				c.fail(key, in.Pos(), "blk is used before/outside the blk != nil edge")
+			if !nonNilAt(b) {
+				onNil := false
+				for _, cd := range fi.condsAt(b) {
+					if isNilCmp(cd, sh.Blk) == -1 {
+						onNil = true
+					}
+				}
+				if onNil {
+					c.fail(key, in.Pos(), "blk is used on the blk == nil edge")
+				} else {
+					c.fail(key, in.Pos(), "blk is used before/outside the blk != nil edge")
+				}
 				bad = true
 			}
 		}
@@ -1511,41 +1576,8 @@ func ruleBlockFresh(c *Ctx) {
 			continue
 		}
 		for _, field := range []string{"Sequences", "Literals"} {
-			trunc := map[*ssa.BasicBlock]bool{}
-			for _, b := range fn.Blocks {
-				for _, in := range b.Instrs {
-					st, ok := in.(*ssa.Store)
-					if !ok {
-						continue
-					}
-					fa, ok := st.Addr.(*ssa.FieldAddr)
-					if !ok || fa.X != ssa.Value(bp) || derefStruct(fa.X.Type()).Field(fa.Field).Name() != field {
-						continue
-					}
-					if truncatingValue(st.Val, field, 0) {
-						trunc[b] = true
-					}
-				}
-			}
+			seen, ntrunc := c.untruncatedReach(fi, bp, field)
 			key := fmt.Sprintf("%s:fresh:%s", fnName(fn), field)
-			// blocks reachable from entry without passing a truncating block
-			seen := map[*ssa.BasicBlock]bool{}
-			var stack []*ssa.BasicBlock
-			if !trunc[fn.Blocks[0]] {
-				stack = append(stack, fn.Blocks[0])
-				seen[fn.Blocks[0]] = true
-			}
-			for len(stack) > 0 {
-				b := stack[len(stack)-1]
-				stack = stack[:len(stack)-1]
-				for _, s := range b.Succs {
-					if seen[s] || trunc[s] {
-						continue
-					}
-					seen[s] = true
-					stack = append(stack, s)
-				}
-			}
 			bad := ""
 			for b := range seen {
 				r, ok := b.Instrs[len(b.Instrs)-1].(*ssa.Return)
@@ -1564,10 +1596,59 @@ func ruleBlockFresh(c *Ctx) {
 				}
 				bad = c.pos(r.Pos())
 			}
-			c.check(bad == "" && len(trunc) > 0, key, fn.Pos(), "blk."+field+" is truncated on every path to a return of the non-nil side",
+			c.check(bad == "" && ntrunc > 0, key, fn.Pos(), "blk."+field+" is truncated on every path to a return that can be taken with a non-nil block",
 				"the return at "+bad+" can be reached without blk."+field+" having been truncated by this call: a reused Block keeps sequences or literals of an earlier call (the block then expands to more than the n bytes reported)")
 		}
 	}
+}
+
+// untruncatedReach: the blocks that can be reached from the entry with a non-nil block — edges taken
+// under blk == nil are not followed — without passing a truncating store to blk.<field>
+// (X = X[:0] or append(X[:0], …)); and the number of truncating blocks found.
+func (c *Ctx) untruncatedReach(fi *FuncInfo, bp *ssa.Parameter, field string) (map[*ssa.BasicBlock]bool, int) {
+	fn := fi.fn
+	trunc := map[*ssa.BasicBlock]bool{}
+	for _, b := range fn.Blocks {
+		for _, in := range b.Instrs {
+			st, ok := in.(*ssa.Store)
+			if !ok {
+				continue
+			}
+			fa, ok := st.Addr.(*ssa.FieldAddr)
+			if !ok || fa.X != ssa.Value(bp) || derefStruct(fa.X.Type()).Field(fa.Field).Name() != field {
+				continue
+			}
+			if truncatingValue(st.Val, field, 0) {
+				trunc[b] = true
+			}
+		}
+	}
+	nilEdge := func(b, s *ssa.BasicBlock) bool {
+		iff, ok := b.Instrs[len(b.Instrs)-1].(*ssa.If)
+		if !ok || b.Succs[0] == b.Succs[1] {
+			return false
+		}
+		side := isNilCmp(Cond{iff.Cond, b.Succs[0] == s}, bp)
+		return side == -1
+	}
+	seen := map[*ssa.BasicBlock]bool{}
+	var stack []*ssa.BasicBlock
+	if !trunc[fn.Blocks[0]] {
+		stack = append(stack, fn.Blocks[0])
+		seen[fn.Blocks[0]] = true
+	}
+	for len(stack) > 0 {
+		b := stack[len(stack)-1]
+		stack = stack[:len(stack)-1]
+		for _, s := range b.Succs {
+			if seen[s] || trunc[s] || nilEdge(b, s) {
+				continue
+			}
+			seen[s] = true
+			stack = append(stack, s)
+		}
+	}
+	return seen, len(trunc)
 }
 
 func blockParam(fn *ssa.Function) *ssa.Parameter {
